@@ -7,8 +7,8 @@ import dg "verifharness/designgen"
 // Temporary+Timeout flags, a custom object error with required / optional / defaulted
 // attributes and a header-mapped attribute, an error of a primitive custom type, one
 // user type shared by two errors (told apart by the attribute carrying the error
-// name), an ErrorResult error whose body is overridden (remaining attributes travel in
-// goa-attribute-* headers), an ErrorResult error with an empty body, service-level and
+// name), an ErrorResult error whose body is overridden by Body("message") (the remaining
+// attributes travel in goa-attribute-* headers), an ErrorResult error with an empty body, service-level and
 // API-level errors inherited by the methods, and payload shapes on which each of the
 // six request-decoding failures can be provoked.
 func covering() []*dg.Design {
@@ -67,15 +67,16 @@ func covering() []*dg.Design {
 	// RESULT type, so the result needs a string attribute of that name)
 	res4 := dg.A(dg.Obj(dg.Req("message", str), dg.F("extra", integer)))
 	m4 := &dg.Method{Name: "bodies", Result: &res4,
-		Errors: []dg.ErrorDef{{Name: "no_body", Temporary: true}, {Name: "plain_one"}},
+		Errors: []dg.ErrorDef{{Name: "msg_only"}, {Name: "no_body", Temporary: true}, {Name: "plain_one"}},
 		HTTP: &dg.HTTPMap{Routes: []dg.Route{{Verb: "GET", Path: "/bodies"}},
 			Errors: []dg.ErrResponse{
+				{Name: "msg_only", R: dg.Response{Status: 400, Body: &dg.BodySpec{Attr: "message"}}},
 				{Name: "no_body", R: dg.Response{Status: 503, Body: &dg.BodySpec{Empty: true}}},
 				{Name: "plain_one", R: dg.Response{Status: 401}},
 			}}}
 	d1 := &dg.Design{Name: "cover1", Types: []*dg.UserType{problem},
 		Services: []*dg.Service{{Name: "beta", Methods: []*dg.Method{m3, m4}}},
-		Features: []string{"cover:primitive_error_type", "cover:shared_user_type", "cover:body_empty"}}
+		Features: []string{"cover:primitive_error_type", "cover:shared_user_type", "cover:body_overridden", "cover:body_empty"}}
 	// the inheritance / override lattice: the same error name declared and mapped at API,
 	// service and method level in every combination (default type everywhere; the same
 	// custom type everywhere)
@@ -139,15 +140,14 @@ func witnessDesigns() []*dg.Design {
 	conflict := dg.Obj(dg.Req("name", str), dg.F("detail", str), dg.F("code", integer))
 	resw := dg.A(dg.Obj(dg.Req("message", str)))
 	mw := &dg.Method{Name: "hdrs", Result: &resw,
-		Errors: []dg.ErrorDef{{Name: "conflict", T: &conflict}, {Name: "msg_only"}, {Name: "no_body"}},
+		Errors: []dg.ErrorDef{{Name: "conflict", T: &conflict}, {Name: "no_body"}},
 		HTTP: &dg.HTTPMap{Routes: []dg.Route{{Verb: "GET", Path: "/hdrs"}},
 			Errors: []dg.ErrResponse{
 				{Name: "conflict", R: dg.Response{Status: 409, Headers: []dg.MapEntry{{Attr: "detail", Wire: "X-Detail"}}}},
-				{Name: "msg_only", R: dg.Response{Status: 400, Body: &dg.BodySpec{Attr: "message"}}},
 				{Name: "no_body", R: dg.Response{Status: 503, Body: &dg.BodySpec{Empty: true}}},
 			}}}
 	w1 := &dg.Design{Name: "witness1", Services: []*dg.Service{{Name: "delta", Methods: []*dg.Method{mw}}},
-		Features: []string{"witness:header_attributes", "witness:body_overridden"}}
+		Features: []string{"witness:header_attributes"}}
 	// a required cookie read after the query parameters
 	payc := dg.A(dg.Obj(dg.Req("n", integer), dg.Req("session", str), dg.F("q", str)))
 	mc := &dg.Method{Name: "cookie", Payload: &payc,
